@@ -170,15 +170,41 @@ def _tlc(spec, cfg, args, env=None, timeout=1500, heap="8g"):
     e = dict(os.environ)
     if env:
         e.update(env)
-    cmd = ["java", "-XX:+UseParallelGC", "-Xmx" + heap, "-cp", TLC_JAR, "tlc2.TLC", "-metadir", md, "-config", cfg] + args + [spec]
+    nw = 1
+    if "-workers" in args:
+        try:
+            nw = int(args[args.index("-workers") + 1])
+        except ValueError:
+            nw = JOBS
+    cmd = ["java", "-XX:+UseParallelGC", "-XX:ParallelGCThreads=%d" % max(2, min(8, nw)), "-XX:CICompilerCount=2", "-Xmx" + heap,
+           "-cp", TLC_JAR, "tlc2.TLC", "-metadir", md, "-config", cfg] + args + [spec]
     t0 = time.time()
+    slot = _tlc_slot()
     try:
         p = subprocess.run(cmd, cwd=SPEC, env=e, stdout=subprocess.PIPE, stderr=subprocess.STDOUT, timeout=timeout, text=True)
         out, rc = p.stdout, p.returncode
     except subprocess.TimeoutExpired as ex:
         out, rc = (ex.stdout or b"").decode("utf-8", "replace") if isinstance(ex.stdout, bytes) else (ex.stdout or ""), 124
+    finally:
+        slot.close()
     shutil.rmtree(md, ignore_errors=True)
     return rc, out, time.time() - t0
+
+
+def _tlc_slot(nslots=8):
+    """Machine-wide limit on concurrently running TLC JVMs (several checks may run at once): take one of nslots lock files."""
+    import fcntl
+    d = "/tmp/verif-tlc-slots"
+    os.makedirs(d, exist_ok=True)
+    while True:
+        for i in range(nslots):
+            f = open(os.path.join(d, "slot%d" % i), "w")
+            try:
+                fcntl.flock(f, fcntl.LOCK_EX | fcntl.LOCK_NB)
+                return f
+            except OSError:
+                f.close()
+        time.sleep(0.2)
 
 
 _ST = re.compile(r"(\d+) states generated, (\d+) distinct states found")
